@@ -636,8 +636,11 @@ class Ref(Shape):
 
 class LoopContract:
     def __init__(self, invariant=None, variant=None, unroll=None, havoc=None, havoc_heap=None,
-                 entry_snapshot=False, body_ensures=None):
+                 entry_snapshot=False, body_ensures=None, never_iterates=False):
         self.body_ensures = body_ensures or {}
+        # the invariant excludes the loop condition on the verified domain (e.g. lines that fit):
+        # the vacuity guard "body verified at least once" does not apply
+        self.never_iterates = never_iterates
         self.invariant = invariant
         self.variant = variant
         self.unroll = unroll
